@@ -31,7 +31,7 @@ func layoutRuns(mask, n int) []memBlock {
 func init() {
 	checks["C15"] = eng.Check{
 		Hist:        true,
-		Rule:        "Bytes memory. (a) creation: every ordered list of <=3 non-empty blocks (begin 0..7, length 1..3, distinct bytes) incl. overlapping, adjacent and unsorted ones: NewBytes fails iff two blocks share an address, otherwise the full read surface (every Load/Missing for a in 0..11, w in 1..3, Blocks) equals the byte map and the given slices are not aliased. (b) histories: for each of the 64 layouts over addresses 0..5 (one block per run) and a layout split into adjacent blocks, every history of <=2 (quick) / <=3 (thorough) constant stores (addr 0..7, width 1..3, constant exactly/narrower/wider than the write, or equal to the bytes already present) on a fresh real Bytes; full surface after each history; histories of >=2 stores in three read/write interleavings (reads after every store, none between the stores, none before the end); digests of constants handed in and expressions returned re-checked. Non-trivial = history with >=2 stores or creation from >=2 blocks.",
+		Rule:        "Bytes memory. (a) creation: every ordered list of <=3 non-empty blocks (begin 0..7, length 1..3, distinct bytes) incl. overlapping, adjacent and unsorted ones: NewBytes fails iff two blocks share an address, otherwise the full read surface (every Load/Missing for a in 0..11, w in 1..3, Blocks) equals the byte map and the given slices are not aliased. (b) histories: for each of the 64 layouts over addresses 0..5 (one block per run) and a layout split into adjacent blocks, every history of <=2 (quick) / <=3 (thorough) constant stores (addr 0..7, width 1..3, constant exactly/narrower/wider than the write, or equal to the bytes already present) on a fresh real Bytes; full surface after each history; histories of >=2 stores in three read/write interleavings (reads after every store, none between the stores, none before the end); digests of constants handed in and expressions returned re-checked. Reads of every width 1..72 from an 80-byte block before and after narrow and wide (33, 64, 255 bytes) stores into, across and beyond it. Non-trivial = history with >=2 stores or creation from >=2 blocks.",
 		Assumptions: []string{"initial blocks are non-empty", "only constants are stored (documented precondition of Bytes.Store)", "no address wrap"},
 		Run: func(r *eng.Run) {
 			// (a) creation
@@ -122,7 +122,9 @@ func init() {
 			for i := 0; i < 80; i++ {
 				long += fmt.Sprintf("%02x", 0x80+i)
 			}
-			for _, ops := range [][]memOp{nil, {{33, 2, "const"}}, {{31, 3, "const"}, {64, 1, "const"}}, {{80, 4, "const"}, {0, 1, "const"}}} {
+			for _, ops := range [][]memOp{nil, {{33, 2, "const"}}, {{31, 3, "const"}, {64, 1, "const"}}, {{80, 4, "const"}, {0, 1, "const"}},
+				// wide stores (33, 64 and 255 bytes; exact, narrower and wider constants) into, across and beyond the block
+				{{2, 33, "const"}}, {{40, 64, "narrow"}}, {{70, 33, "wide"}, {1, 2, "const"}}, {{0, 255, "const"}, {100, 3, "const"}}, {{79, 255, "narrow"}}} {
 				memDoRW(r, memCase{Mem: "bytes", Blocks: []memBlock{{0, long}}, Ops: ops, MaxA: 12, MaxW: 72})
 			}
 			memTopEnd(r, []memCase{{Mem: "bytes"}})
